@@ -33,7 +33,7 @@ def pool(tier):
         P.append((c, src))
     ints = [0, 1, -1, 2, -2, 3, -3, 7, -7, 10, 2 ** 31, 2 ** 53 + 1, 2 ** 63 - 1, 2 ** 63, -2 ** 63, -2 ** 63 - 1,
             2 ** 64, 2 ** 100 + 1, -(2 ** 100), 10 ** 30]
-    if tier == "quick":
+    if tier == "tiny":
         ints = [0, 1, -1, 2, -3, 7, 2 ** 53 + 1, 2 ** 63, -2 ** 63 - 1, 2 ** 100 + 1]
     for v in ints:
         add(cI(v), lit_int(v))
@@ -42,7 +42,7 @@ def pool(tier):
     fr = [(1, 2), (-1, 2), (1, 3), (-1, 3), (3, 2), (-3, 2), (7, 3), (-7, 3), (5, 4), (1, 7), (22, 7), (-22, 7),
           (2 ** 64 + 1, 2 ** 64), (1, 2 ** 70), (-(10 ** 30 + 1), 10 ** 15 + 3), (2 ** 100 + 1, 3),
           (2 ** 1100 + 1, 2 ** 1100), (1, 2 ** 1080)]
-    if tier == "quick":
+    if tier == "tiny":
         fr = [(1, 2), (-1, 2), (1, 3), (-7, 3), (3, 2), (2 ** 64 + 1, 2 ** 64), (-(10 ** 30 + 1), 10 ** 15 + 3)]
     for n, d in fr:
         add(cQ(Fraction(n, d)), lit_frac(Fraction(n, d)))
@@ -54,13 +54,13 @@ def pool(tier):
         add(["q", str(2 ** 64), "1"], "(2^65/2)")
     fl = [0.0, -0.0, 0.5, -0.5, 0.1, 1.5, -1.5, 2.0, 3.0, 2.0 ** 53, 2.0 ** 53 + 2, 2.0 ** 63, 2.0 ** 64, 1e300, 5e-324,
           math.inf, -math.inf, math.nan]
-    if tier == "quick":
+    if tier == "tiny":
         fl = [0.0, -0.0, 0.5, -1.5, 0.1, 3.0, 2.0 ** 53, 2.0 ** 64, 1e300, math.inf, -math.inf, math.nan]
     for x in fl:
         add(cF(x), lit_float(x))
     cx = [(0.0, 1.0, "1i"), (1.0, 1.0, "(1+1i)"), (-1.0, -2.0, "(-(1+2i))"), (0.0, 0.0, "(0.0+0i)"),
           (0.5, 0.0, "(0.5+0i)"), (1.0, 0.0, "(1+0i)")]
-    if tier == "quick":
+    if tier == "tiny":
         cx = cx[:3] + cx[5:]
     for re, im, s in cx:
         add(["c", f2hex(re), f2hex(im)], s)
